@@ -16,6 +16,7 @@ SPEC = {
     ],
     "assumptions": [
         "block protocol: disburseFeesVQ (BeginBlock) and disburseFeesP (EndBlock) alternate, one each per block (the model returns RMisuse otherwise); between them the persisted last-block-fees value is stale in the code and is not counted",
+        "histories: insecure beacon (epoch every 4 blocks) or mock beacon with set-epoch transactions jumping 1..4 epochs, debonding intervals 1..4, optional genesis debonding delegations that are already expired; 6 % of the blocks are proposed by a node the registry does not know (no proposer entity)",
         "a BeginBlock/EndBlock error aborts the block (multiplexer panics): modelled as RFatal with the state unchanged",
         "not modelled: withdraw hooks of vault accounts, roothash runtime messages (TransferFromCommon is modelled and proved but not exercised by K: no runtimes in the histories), UndisableTransfersFrom, registry stake claims, gas accounting beyond 'limit covers size (+ operation)'",
     ],
@@ -24,5 +25,5 @@ SPEC = {
 MANIFEST = {
     "technique": "Coq proof (invariant preserved by every ledger operation, by induction over all operation sequences; exact supply accounting) with per-block differential correspondence check against the real multiplexer and an independent Go evaluation of the invariant on every block's state",
     "level_text": "Theorems in coq/Props/C05.v hold for every state satisfying the invariant, every parameter set and every sequence of model operations (transactions with fee payment incl. failing ones, fee disbursement, rewards with commission, slashing, debonding completion, governance deposits) with arbitrary oracle inputs: supply = sum of all balances and pools, share totals = sums of (debonding) delegations, supply decreases exactly by the burned amounts. The model is tied to the code by replaying every block of seeded histories (valid and invalid transactions, epoch transitions, partial votes, double-sign evidence) on the real multiplexer and on the model inside Coq, comparing every account, delegation and pool field by field; independently the invariant is evaluated in Go on the real state after every block and cross-checked with the in-tree supplementarysanity app at every height.",
-    "level_note": "Trusted: Coq kernel; the harness and muxdrv; the hand-written port (tied to the code only by the per-block correspondence); oracle inputs listed in trusted_base. Not covered: roothash/vault paths into the ledger (no runtimes/vaults in the histories), blocks proposed by an unregistered proposer.",
+    "level_note": "Trusted: Coq kernel; the harness and muxdrv; the hand-written port (tied to the code only by the per-block correspondence); oracle inputs listed in trusted_base. Not covered by K: roothash/vault paths into the ledger (no runtimes/vaults in the histories; TransferFromCommon is modelled and proved only). Epoch jumps use the debug mock beacon (set-epoch transactions); governance proposals are not generated in those histories because a skipped closing epoch leaves a proposal active forever.",
 }
